@@ -177,7 +177,7 @@ type c18KStep struct {
 
 const c18AuthClass = "verif-class"
 
-func c18KRuleSet(o c18KObj, rej map[int]bool, rv int) *v1alpha4.RuleSet {
+func c18KRuleSet(o c18KObj, rej map[int]bool, rv int, compete bool) *v1alpha4.RuleSet {
 	cls := c18AuthClass
 	if !o.Cls {
 		cls = "another-class"
@@ -194,9 +194,15 @@ func c18KRuleSet(o c18KObj, rej map[int]bool, rv int) *v1alpha4.RuleSet {
 		authn = c18.UnknownMechanism
 	}
 
+	path := fmt.Sprintf("/k%d/u%d/:x", o.Cid, o.UID)
+	if compete {
+		// contents of one conflict class share a path, whatever object carries them (as c18.RealBytes)
+		path = fmt.Sprintf("/x%d/:y", (o.Cid-1)%4)
+	}
+
 	rules := []config2.Rule{{
 		ID:      id,
-		Matcher: config2.Matcher{Routes: []config2.Route{{Path: fmt.Sprintf("/k%d/u%d/:x", o.Cid, o.UID)}}},
+		Matcher: config2.Matcher{Routes: []config2.Route{{Path: path}}},
 		Execute: []config.MechanismConfig{{"authenticator": authn}},
 	}}
 
@@ -217,6 +223,7 @@ const c18KTimeout = 60 * time.Second
 type VerifKOpts struct {
 	Next     rule.SetProcessor
 	Snapshot func() []int
+	Compete  bool // rule sets of one conflict class claim the same path
 }
 
 func c18KRun(c c18KCase, opts VerifKOpts) ([]c18KStep, [][]int, error) {
@@ -281,7 +288,7 @@ func c18KRun(c c18KCase, opts VerifKOpts) ([]c18KStep, [][]int, error) {
 		repo.rv++
 		ninit++
 
-		repo.items = append(repo.items, *c18KRuleSet(e.Obj, rej, repo.rv))
+		repo.items = append(repo.items, *c18KRuleSet(e.Obj, rej, repo.rv, opts.Compete))
 	}
 
 	prov := &provider{
@@ -417,7 +424,7 @@ func c18KRun(c c18KCase, opts VerifKOpts) ([]c18KStep, [][]int, error) {
 		if e.T != "R" {
 			repo.mu.Lock()
 			repo.rv++
-			obj := c18KRuleSet(e.Obj, rej, repo.rv)
+			obj := c18KRuleSet(e.Obj, rej, repo.rv, opts.Compete)
 			repo.mu.Unlock()
 
 			// the fake server's content follows the events
@@ -478,7 +485,7 @@ func c18KRun(c c18KCase, opts VerifKOpts) ([]c18KStep, [][]int, error) {
 
 			for _, o := range e.List {
 				repo.rv++
-				out = append(out, *c18KRuleSet(o, rej, repo.rv))
+				out = append(out, *c18KRuleSet(o, rej, repo.rv, opts.Compete))
 			}
 
 			return append(out, sentinels...)
